@@ -28,6 +28,10 @@ pub struct Case {
     /// whether the outputs are determined by the inputs (false for documented
     /// non-canonical decompositions).
     pub deterministic: bool,
+    /// further input vectors for the same program, used by the range oracle only (honest
+    /// witnesses that may lie outside an asserted range: the expected verdict is computed by
+    /// `spec_eval`).
+    pub variants: Vec<Vec<F>>,
 }
 
 impl Case {
@@ -62,6 +66,13 @@ pub fn render_outcome_cells(out: &Outcome) -> String {
     let v: Vec<String> =
         out.vars.iter().map(|(ty, k, o, key, _)| format!("{ty}:{k}.{o}.{key}")).collect();
     format!("O[{}]", v.join(" "))
+}
+
+/// `NativeGadget::constrained_cells` as the hook returns it, canonical cell names.
+pub fn render_outcome_bounds(out: &Outcome) -> String {
+    let v: Vec<String> =
+        out.bounds.iter().map(|(k, o, key, b)| format!("{k}.{o}.{key}<{}", mzkh::big_hex(b))).collect();
+    format!("B[{}]", v.join(" "))
 }
 
 pub fn render_outcome_values(out: &Outcome) -> String {
@@ -150,7 +161,7 @@ pub fn run_case(ctx: &mut Ctx, case: &Case, with_values: bool) -> Option<(Rec, O
             return None;
         }
     };
-    let trace = format!("{} {}", rec.render(), render_outcome_cells(&out));
+    let trace = format!("{} {} {}", rec.render(), render_outcome_cells(&out), render_outcome_bounds(&out));
     ctx.case(&format!("trace:{}", case.kind), true, &format!("trace {hdr}"), &trace);
     ctx.count_n("trace_regions", rec.regions.len() as u64);
     // table must enumerate exactly [0, 2^tag) for each tag
@@ -481,6 +492,20 @@ fn semantic_violation(case: &Case, vals: &[Option<F>], types: &[String]) -> Opti
                 (Arg::Big(b), Some(x)) => x >= *b,
                 _ => false,
             },
+            "bnot" => match (&a[1], var(&a[0])) {
+                (Arg::N(k), Some(x)) => x >= two.pow(*k as u32),
+                _ => false,
+            },
+            "yaeq" => matches!((var(&a[0]), var(&a[1])), (Some(x), Some(y)) if x != y),
+            "yaneq" => matches!((var(&a[0]), var(&a[1])), (Some(x), Some(y)) if x == y),
+            "yaeqf" => match (&a[1], var(&a[0])) {
+                (Arg::N(c), Some(x)) => x != num_bigint::BigUint::from(*c),
+                _ => false,
+            },
+            "yaneqf" => match (&a[1], var(&a[0])) {
+                (Arg::N(c), Some(x)) => x == num_bigint::BigUint::from(*c),
+                _ => false,
+            },
             "asltp2" => match (&a[1], var(&a[0])) {
                 (Arg::N(k), Some(x)) => x >= two.pow(*k as u32),
                 _ => false,
@@ -696,6 +721,193 @@ pub fn pair_search(ctx: &mut Ctx, case: &Case, rec: &Rec, honest: MockRun, budge
     }
 }
 
+/// What the range oracle knows about a program on given inputs.
+pub struct Spec {
+    /// value of every variable (None = not determined by the specification)
+    pub vals: Vec<Option<num_bigint::BigUint>>,
+    /// do all range assertions / domain conditions of the program hold on the honest witness?
+    pub ok: bool,
+    /// the first assertion that fails
+    pub why: Option<String>,
+}
+
+/// The mathematical meaning of the range assertions, conversions and comparisons of a program
+/// on an honest witness, over the integers (independent of the Lean model and of the code under
+/// test). `None` when the program uses an operation outside this fragment.
+pub fn spec_eval(case: &Case, inputs: &[F]) -> Option<Spec> {
+    use crate::prog::Arg;
+    use num_bigint::BigUint;
+    let pm = gen::modulus();
+    let two = BigUint::from(2u8);
+    let mut vals: Vec<Option<BigUint>> = vec![];
+    let mut ok = true;
+    let mut why: Option<String> = None;
+    let mut it = inputs.iter();
+    let mut fail = |ok: &mut bool, cond: bool, o: &Op| {
+        if !cond && *ok {
+            *ok = false;
+            why = Some(o.render());
+        }
+    };
+    for o in &case.ops {
+        let a = &o.args;
+        let v = |i: usize| -> Option<BigUint> {
+            match &a[i] {
+                Arg::V(j) => vals.get(*j).cloned().flatten(),
+                _ => None,
+            }
+        };
+        let cbig = |i: usize| -> BigUint {
+            match &a[i] {
+                Arg::C(c) => mzkh::fe_big(c),
+                Arg::Big(b) => b.clone(),
+                Arg::N(n) => BigUint::from(*n),
+                _ => panic!("spec: constant expected"),
+            }
+        };
+        let b2 = |b: bool| Some(BigUint::from(b as u8));
+        match o.name {
+            "in" => vals.push(Some(mzkh::fe_big(it.next()?))),
+            "inb" => {
+                let x = mzkh::fe_big(it.next()?);
+                if x >= two {
+                    return None;
+                }
+                vals.push(Some(x));
+            }
+            "iny" => {
+                let x = mzkh::fe_big(it.next()?);
+                if x >= BigUint::from(256u32) {
+                    return None;
+                }
+                vals.push(Some(x));
+            }
+            "fix" => vals.push(Some(cbig(0))),
+            "y2n" | "b2n" => vals.push(v(0)),
+            "n2y" => {
+                let x = v(0)?;
+                fail(&mut ok, x < BigUint::from(256u32), o);
+                vals.push(Some(x));
+            }
+            "n2b" => {
+                let x = v(0)?;
+                fail(&mut ok, x < two, o);
+                vals.push(Some(x));
+            }
+            "alf" => {
+                let x = v(0)?;
+                fail(&mut ok, x < cbig(1), o);
+            }
+            "inlf" => {
+                let x = mzkh::fe_big(it.next()?);
+                fail(&mut ok, x < cbig(0), o);
+                vals.push(Some(x));
+            }
+            "bnd" => {
+                let x = v(0)?;
+                fail(&mut ok, x < two.pow(a[1].n_pub() as u32), o);
+                vals.push(Some(x));
+            }
+            "asltp2" => {
+                let x = v(0)?;
+                fail(&mut ok, x < two.pow(a[1].n_pub() as u32), o);
+            }
+            "altp2" => {
+                let x = mzkh::fe_big(it.next()?);
+                fail(&mut ok, x < two.pow(a[0].n_pub() as u32), o);
+                vals.push(Some(x));
+            }
+            "aeq" => {
+                let (x, y) = (v(0)?, v(1)?);
+                fail(&mut ok, x == y, o);
+            }
+            "ltf" => vals.push(b2(v(0)? < cbig(1))),
+            "leqf" => vals.push(b2(v(0)? <= cbig(1))),
+            "geqf" => vals.push(b2(v(0)? >= cbig(1))),
+            "gtf" => vals.push(b2(v(0)? > cbig(1))),
+            "lt" => vals.push(b2(v(0)? < v(1)?)),
+            "leq" => vals.push(b2(v(0)? <= v(1)?)),
+            "geq" => vals.push(b2(v(0)? >= v(1)?)),
+            "gt" => vals.push(b2(v(0)? > v(1)?)),
+            "not" => vals.push(Some(BigUint::from(1u8) - v(0)?)),
+            "bnot" => {
+                let x = v(0)?;
+                let m = two.pow(a[1].n_pub() as u32);
+                fail(&mut ok, x < m, o);
+                vals.push(if x < m { Some(&m - 1u8 - &x) } else { None });
+            }
+            "divrem" | "rem" => {
+                let x = v(0)?;
+                let d = cbig(1);
+                let bound = match &a[2] {
+                    Arg::OptBig(Some(b)) => b.clone(),
+                    _ => &pm - 1u8,
+                };
+                let (q, r) = (&x / &d, &x % &d);
+                if d != BigUint::from(1u8) {
+                    fail(&mut ok, q < &bound / &d + 1u8, o);
+                }
+                if o.name == "divrem" {
+                    vals.push(Some(q));
+                }
+                vals.push(Some(r));
+            }
+            _ => return None,
+        }
+    }
+    Some(Spec { vals, ok, why })
+}
+
+/// The range oracle: for the inputs of the case and each of its variants, the real MockProver
+/// must accept the honest witness iff every range assertion of the program holds on it, and
+/// the values the real synthesis computes must be the specified ones.
+pub fn range_oracle(ctx: &mut Ctx, case: &Case, rec: &Rec) {
+    let k = k_for(rec);
+    let mut all: Vec<Vec<F>> = vec![case.inputs.clone()];
+    all.extend(case.variants.iter().cloned());
+    for inputs in all {
+        let Some(spec) = spec_eval(case, &inputs) else {
+            ctx.count("range-oracle:unsupported");
+            continue;
+        };
+        let c2 = Case { inputs: inputs.clone(), variants: vec![], ..case.clone() };
+        let m = mock(&c2, k, vec![]);
+        let accepted = m.verdict == Ok(true);
+        ctx.count(&format!(
+            "range-oracle:{}:{}",
+            if spec.ok { "in-range" } else { "out-of-range" },
+            if accepted { "accepted" } else { "rejected" }
+        ));
+        if accepted && !spec.ok {
+            ctx.oracle_fail(
+                &format!("range-accepts:{}", case_key(&c2)),
+                "MockProver accepts an honest witness that lies outside an asserted range",
+                json!({"case": case_key(&c2), "violated": spec.why}),
+            );
+        } else if !accepted && spec.ok {
+            ctx.oracle_fail(
+                &format!("range-rejects:{}", case_key(&c2)),
+                "MockProver rejects an honest witness although every asserted range holds",
+                json!({"case": case_key(&c2), "verdict": format!("{:?}", m.verdict)}),
+            );
+        } else if accepted {
+            let got: Vec<Option<F>> = m.outcome.vars.iter().map(|v| v.4).collect();
+            for (i, (g, s)) in got.iter().zip(spec.vals.iter()).enumerate() {
+                if let (Some(g), Some(s)) = (g, s) {
+                    if mzkh::fe_big(g) != *s {
+                        ctx.oracle_fail(
+                            &format!("wrong-output:{}", case_key(&c2)),
+                            "an accepted honest execution outputs a value that differs from the operation's definition",
+                            json!({"case": case_key(&c2), "var": i, "got": fe_hex(g), "expected": mzkh::big_hex(s)}),
+                        );
+                        break;
+                    }
+                }
+            }
+        }
+    }
+}
+
 /// Number of variables produced by the input-preparation prefix.
 fn nb_input_vars(case: &Case) -> usize {
     let prefix = Case { ops: case.ops[..case.first_op].to_vec(), inputs: case.inputs.clone(), ..case.clone() };
@@ -735,6 +947,7 @@ pub fn attack_divrem(ctx: &mut Ctx) {
             inputs: vec![gen::big_fe(&x)],
             first_op: 1,
             deterministic: true,
+            variants: vec![],
         };
         let replica = |xv: &BigUint, rv: &BigUint, qv: &BigUint| Case {
             kind: "divrem-replica".into(),
@@ -749,6 +962,7 @@ pub fn attack_divrem(ctx: &mut Ctx) {
             inputs: vec![gen::big_fe(xv), gen::big_fe(rv), gen::big_fe(qv)],
             first_op: 1,
             deterministic: false,
+            variants: vec![],
         };
         let honest_rep = replica(&x, &(&x % &dv), &(&x / &dv));
         let (Ok((rec_real, _)), Ok((rec_rep, _))) = (record(&real), record(&honest_rep)) else {
@@ -789,14 +1003,23 @@ pub fn run(ctx: &mut Ctx) {
         ctx.case("optok", true, &format!("optok {} {}", p.nr_cols, p.max_bit_len), "1");
     }
     let cases = gen::cases(ctx);
-    let budget = if ctx.quick() { 6 } else if ctx.thorough() { 10 } else { 24 };
+    let budget = if ctx.quick() { 6 } else if ctx.thorough() { 10 } else { 8 };
     for case in &cases {
         let Some((rec, _out)) = run_case(ctx, case, true) else { continue };
+        let oracle_case = case.kind.starts_with("bc:");
+        if oracle_case {
+            range_oracle(ctx, case, &rec);
+            if ctx.search() {
+                // the search tier only looks for failing inputs: for these cases the range oracle is it
+                continue;
+            }
+        }
         let Some(honest) = honest_accept(ctx, case, &rec) else { continue };
+        let budget = if oracle_case { budget.min(if ctx.quick() { 0 } else { 2 }) } else { budget };
         tamper_case(ctx, case, &rec, honest, budget);
-        if !ctx.quick() {
+        if !ctx.quick() && !oracle_case {
             if let Some(h2) = honest_accept(ctx, case, &rec) {
-                pair_search(ctx, case, &rec, h2, if ctx.search() { 150 } else { 40 });
+                pair_search(ctx, case, &rec, h2, if ctx.search() { 40 } else { 40 });
             }
         }
     }
